@@ -43,7 +43,13 @@ func (i *interpreter) goSpawn(fn value, args []value) {
 	if s == nil {
 		panic(engineError("go statement outside a path"))
 	}
-	if len(s.gs) > 64 {
+	alive := 0
+	for _, c := range s.gs {
+		if !c.done {
+			alive++
+		}
+	}
+	if alive > 64 || len(s.gs) > 4096 {
 		panic(engineError("too many goroutines"))
 	}
 	g := &gor{id: len(s.gs), resume: make(chan struct{}), fn: fn, args: args, exited: make(chan struct{})}
